@@ -6,9 +6,18 @@ from .common import COQ, REPO, VERIF, CACHE, run, log, NCPU
 
 GEN = os.path.join(COQ, "theories", "Gen")
 
+SPAN_PREAMBLE = ("From Coq Require Import List NArith.\\nFrom PT Require Import Model.Base Model.SpanOps.\\n"
+                 "(* the struct Span { input, start, end } and its checked constructor (hand-written model: Model/SpanOps.v) *)\\n"
+                 "Record Span := mk_Span { sp_input : list byte; sp_start : Z; sp_end : Z }.\\n"
+                 "Definition span_new_z (s : list byte) (a b : Z) : option Span :=\\n"
+                 "  match span_new s (Z.to_nat a) (Z.to_nat b) with Some (x, y) => Some (mk_Span s (Z.of_nat x) (Z.of_nat y)) | None => None end.")
+
 # (rust source relative to /repo, output, rs2v args)
 RS2V_JOBS = [
     ("main/src/parser_state.rs", "SliceGen.v", ["--fn", "normalize_index", "--fn", "constrain_idxs"]),
+    ("main/src/span.rs", "SpanGen.v", ["--fn", "merge_spans", "--proj", "start=sp_start:usize", "--proj", "end=sp_end:usize",
+                                       "--proj", "get_input=sp_input:Inp", "--opaque", "new=span_new_z:option-Span",
+                                       "--preamble", SPAN_PREAMBLE]),
 ]
 
 FORBIDDEN = re.compile(r"\b(Admitted|admit|Axiom|Axioms|Parameter|Parameters|Conjecture|Conjectures|Hypothesis|Variable)\b|Unset\s+Guard|bypass_check|type-in-type|impredicative-set|Admit\s+Obligations|native_compute")
@@ -173,4 +182,17 @@ def check_property_proofs(ctx, pid, extra_targets=()):
                 good = r == "closed" or all(a in ALLOWED_AXIOMS for a in r)
                 ctx.oblige("theorem %s: %s" % (thm, "Closed under the global context" if r == "closed" else "axioms " + ",".join(r)), good)
                 ok_all &= good
+    if ok and ctx.tier == "thorough":
+        # independent re-check of the compiled property file and everything it depends on
+        rc, so, se = run(["timeout", "1800", "coqchk", "-o", "-silent", "-Q", "theories", "PT", "PT.Properties.%s" % pid], cwd=COQ, timeout=1830)
+        txt = so + se
+        def section(name):
+            m = re.search(r"\* %s:(.*?)(?=\n\* |\Z)" % re.escape(name), txt, re.S)
+            return (m.group(1).strip() if m else "<missing>")
+        good = rc == 0 and all(section(n) == "<none>" for n in (
+            "Axioms", "Constants/Inductives relying on type-in-type", "Constants/Inductives relying on unsafe (co)fixpoints",
+            "Inductives whose positivity is assumed"))
+        ctx.oblige("coqchk -o PT.Properties.%s: axioms <none>, no type-in-type, no unsafe fixpoints, no assumed positivity" % pid,
+                   good, txt[-1500:] if not good else "")
+        ok_all &= good
     return ok_all
